@@ -15,7 +15,7 @@ pub struct BytesSpec {
     pub seed: u32,
 }
 
-pub const N_CLASSES: u8 = 8;
+pub const N_CLASSES: u8 = 10;
 
 pub fn class_name(c: u8) -> &'static str {
     match c % N_CLASSES {
@@ -26,7 +26,9 @@ pub fn class_name(c: u8) -> &'static str {
         4 => "utf8",
         5 => "invalid-utf8",
         6 => "nul-embedded",
-        _ => "uuid-text",
+        7 => "uuid-text",
+        8 => "gzip-member",
+        _ => "zlib-stream",
     }
 }
 
@@ -136,6 +138,34 @@ impl BytesSpec {
                     out[0] = b'a' + (self.seed % 26) as u8;
                 }
             }
+            8 | 9 => {
+                // a complete, valid compressed stream (gzip member / zlib stream) followed by
+                // filler: payloads are opaque, whatever well-known format they happen to look like
+                use std::io::Write;
+                let mut plain = Vec::new();
+                let unit = format!("payload-{}-", self.seed);
+                while plain.len() < len.max(8) {
+                    plain.extend_from_slice(unit.as_bytes());
+                }
+                let packed: Vec<u8> = if self.class % N_CLASSES == 8 {
+                    let mut e = flate2::write::GzEncoder::new(Vec::new(), flate2::Compression::default());
+                    let _ = e.write_all(&plain);
+                    e.finish().unwrap_or_default()
+                } else {
+                    let mut e = flate2::write::ZlibEncoder::new(Vec::new(), flate2::Compression::default());
+                    let _ = e.write_all(&plain);
+                    e.finish().unwrap_or_default()
+                };
+                if packed.len() <= len {
+                    out.extend_from_slice(&packed);
+                    while out.len() < len {
+                        out.push((xorshift(&mut st) & 0xFF) as u8);
+                    }
+                } else {
+                    // too short for a whole stream: at least its beginning
+                    out.extend_from_slice(&packed[..len]);
+                }
+            }
             _ => {
                 // looks like an id in text form
                 let u = fresh_uuid(self.seed).to_string();
@@ -153,6 +183,15 @@ impl BytesSpec {
 
 /// A deterministic, non-nil, v4-looking id for a literal.
 pub fn fresh_uuid(literal: u32) -> Uuid {
+    // two literals stand for ids with a peculiar shape: all ones, and nil but for the last bit
+    if literal == 6 {
+        return Uuid::from_bytes([0xFF; 16]);
+    }
+    if literal == 7 {
+        let mut b = [0u8; 16];
+        b[15] = 1;
+        return Uuid::from_bytes(b);
+    }
     let mut st = (literal as u64).wrapping_mul(0xA076_1D64_78BD_642F) ^ 0xE703_7ED1_A0B4_28DB;
     if st == 0 {
         st = 1;
@@ -170,6 +209,35 @@ pub fn fresh_uuid(literal: u32) -> Uuid {
 
 /// The id of client number `idx` in a case with the given salt.
 pub fn client_uuid(salt: u32, idx: u8) -> Uuid {
+    // a few salts give client ids with a peculiar shape (the fixture corpus uses salts 1900-1909,
+    // which must keep their ids)
+    if !(1900..1910).contains(&salt) {
+        match salt % 16 {
+            11 => {
+                // leading zeros, differing in the last digit only
+                let mut b = [0u8; 16];
+                b[6] = 0x40;
+                b[8] = 0x80;
+                b[15] = idx + 1;
+                return Uuid::from_bytes(b);
+            }
+            12 => {
+                // all ones but the last digit
+                let mut b = [0xFFu8; 16];
+                b[15] = 0xF0 | (idx & 0x0F);
+                return Uuid::from_bytes(b);
+            }
+            13 => {
+                // equal in everything but the first byte
+                let mut b = [0xABu8; 16];
+                b[0] = idx;
+                b[6] = 0x4B;
+                b[8] = 0x8B;
+                return Uuid::from_bytes(b);
+            }
+            _ => {}
+        }
+    }
     let mut st = ((salt as u64) << 8 | idx as u64).wrapping_mul(0x2545_F491_4F6C_DD1D) ^ 0x1234_5678_9ABC_DEF1;
     if st == 0 {
         st = 1;
@@ -351,7 +419,7 @@ fn idref(own: u8, n: u8, p: &GenParams, latest_w: u32) -> BoxedStrategy<IdRef> {
         rest * 26 / 100 + 1 => (1u8..9).prop_map(move |b| IdRef::Ancestor(own, b)),
         rest * 12 / 100 + 1 => Just(IdRef::Base(own)),
         rest * 10 / 100 + 1 => Just(IdRef::SnapVersion(own)),
-        rest * 12 / 100 + 1 => (0u32..6).prop_map(IdRef::Fresh),
+        rest * 12 / 100 + 1 => (0u32..8).prop_map(IdRef::Fresh),
         rest * foreign / 100 + if foreign > 0 {1} else {0} => (any::<u8>(), 0u8..4, 0u8..6).prop_map(move |(k, which, b)| {
             let o = other(k);
             match which {
